@@ -464,6 +464,12 @@ write_code(ostream &out_code,ostream * out_include, InterrogateModuleDef *def) {
   std::vector<FunctionRemap *>::iterator ri;
   for (ri = remaps.begin(); ri != remaps.end(); ++ri) {
     FunctionRemap *remap = (*ri);
+    if (remap->_wrapper_index == 0) {
+      // No wrapper entry was made for this remap (we don't record wrappers
+      // whose return type we don't understand), so it has no place in the
+      // tables, which are indexed by wrapper index.
+      continue;
+    }
     wrappers_by_index[remap->_wrapper_index] = remap;
     num_wrappers++;
   }
@@ -506,6 +512,9 @@ write_code(ostream &out_code,ostream * out_include, InterrogateModuleDef *def) {
         << num_wrappers << "] = {\n";
     for (ri = remaps.begin(); ri != remaps.end(); ++ri) {
       FunctionRemap *remap = (*ri);
+      if (remap->_wrapper_index == 0) {
+        continue;
+      }
       out_code << "  { \""
           << remap->_unique_name << "\", "
           << remap->_wrapper_index - 1 << " },\n";
